@@ -331,6 +331,7 @@ def run(chk, prog, tier):
     check_index_protocol(chk, prog)
     c05.check_insert_after_probe(chk, prog)
     extent_common.check_scan_extent(chk, prog)
+    extent_common.check_chunk_covers(chk, prog)
     check_fast_subset(chk, prog)
     check_offsets_monotone(chk, prog)
     check_stale_count(chk, prog)
